@@ -107,23 +107,6 @@ Section Redo.
     intros H. apply Ext_rt in H as [es [H E]]. exists es, [], []. cbn in *. rewrite E, app_nil_r. repeat split; try constructor; exact H.
   Qed.
 
-  Lemma download_all_ext ls : forall cs r, Ext r (fst (download_all size_of r ls cs)).
-  Proof.
-    induction ls as [|l ls IH]; intros cs r; cbn [download_all]; [apply Ext_refl|].
-    assert (H1 : Ext r (fst (download size_of r l (hd None cs)))).
-    { unfold download. destruct (bget (dhex (ldg l)) (rs r)); [apply Ext_refl|]. destruct (hd None cs) as [c|]; [|apply Ext_refl].
-      destruct (size_of c =? 0); cbn [fst]; repeat (apply Ext_emit; [|exact I]); apply Ext_refl. }
-    destruct (download size_of r l (hd None cs)) as [r1 [hit|]]; cbn [fst] in *; [|exact H1].
-    specialize (IH (tl cs) r1). destruct (download_all size_of r1 ls (tl cs)). cbn in *. eapply Ext_trans; eassumption.
-  Qed.
-
-  Lemma verify_all_ext dl : forall r, Ext r (fst (verify_all r dl)).
-  Proof.
-    induction dl as [|[l hit] dl IH]; intros r; cbn; [apply Ext_refl|]. destruct hit; [apply IH|].
-    destruct (bget (dhex (ldg l)) (rs r)) as [c|]; [|apply Ext_refl].
-    destruct (dcolon (ldg l) && (c =? dhex (ldg l))); [apply IH | apply Ext_emit; [apply Ext_refl | exact I]].
-  Qed.
-
   (** every operation's effect list has the shape, provided no manifest is unreadable at the start *)
   Lemma effects_shaped s o : has_unreadable s = false -> shaped (effects size_of s o).
   Proof.
@@ -145,7 +128,7 @@ Section Redo.
       apply Ext_rt in H as [es2 [H2 E2]]. exists [], [ERmMan (get_existing (readable_names s) n)], es2. cbn in *. rewrite E2.
       repeat split; try constructor; exact H2.
     - unfold op_pull, op_pull_gen. destruct sv as [v|]; cbn [fst]; [|apply (shaped_blob_only s), Ext_refl].
-      assert (Hd := download_all_ext (all_layers (sv_manifest v)) (sv_contents v) (init s)).
+      assert (Hd := download_all_ext size_of (all_layers (sv_manifest v)) (sv_contents v) (init s)).
       destruct (download_all size_of (init s) (all_layers (sv_manifest v)) (sv_contents v)) as [r1 [dl|]]; cbn [fst] in *; [|apply (shaped_blob_only s), Hd].
       assert (Hv := verify_all_ext dl r1). destruct (verify_all r1 dl) as [r2 ok]. cbn [fst] in Hv.
       assert (H2 : Ext (init s) r2) by (eapply Ext_trans; eassumption).
@@ -454,15 +437,23 @@ Section Redo.
   Qed.
 
   (** pull: every layer can be downloaded again *)
-  Lemma download_all_total ls : forall cs r,
-    (length cs = length ls) -> forallb is_some cs = true -> exists dl, snd (download_all size_of r ls cs) = Some dl.
+  Lemma download_total r l c : dcolon (ldg l) = true -> c = dhex (ldg l) -> exists hit, snd (download size_of r l (Some c)) = Some hit.
   Proof.
-    induction ls as [|l ls IH]; intros cs r Hl Hs; cbn [download_all]; [eexists; reflexivity|].
-    destruct cs as [|[c|] cs]; cbn in Hl, Hs; try discriminate. cbn [hd tl].
-    assert (Hd : exists hit, snd (download size_of r l (Some c)) = Some hit).
-    { unfold download. destruct (bget (dhex (ldg l)) (rs r)); [eexists; reflexivity|]. destruct (size_of c =? 0); eexists; reflexivity. }
-    destruct Hd as [hit Hd]. destruct (download size_of r l (Some c)) as [r1 oh]. cbn in Hd. subst oh.
-    destruct (IH cs r1 ltac:(lia) Hs) as [dl Hdl]. destruct (download_all size_of r1 ls cs) as [r2 rest]. cbn in *. subst rest.
+    intros Hc ->. unfold download, download_gen. set (h := dhex (ldg l)). destruct (bget h (rs r)); [eexists; reflexivity|].
+    rewrite Hc, N.eqb_refl. cbn [andb].
+    destruct (partrec_state h 0 (debris (rs r))) as [[| |]|]; cbn [negb]; try (eexists; reflexivity);
+      destruct (size_of h =? 0); eexists; reflexivity.
+  Qed.
+
+  Lemma download_all_total ls : forall cs r,
+    (length cs = length ls) -> forallb is_some cs = true -> contents_ok ls cs = true -> Forall (fun l => dcolon (ldg l) = true) ls ->
+    exists dl, snd (download_all size_of r ls cs) = Some dl.
+  Proof.
+    induction ls as [|l ls IH]; intros cs r Hl Hs Hok Hcan; cbn [download_all]; [eexists; reflexivity|].
+    destruct cs as [|[c|] cs]; cbn in Hl, Hs; try discriminate. cbn [hd tl]. cbn [contents_ok hd tl] in Hok.
+    apply andb_true_iff in Hok as [Hc Hok]. apply N.eqb_eq in Hc. inversion Hcan as [|x y Hcl Hcls]; subst x y.
+    destruct (download_total r l c Hcl Hc) as [hit Hd]. destruct (download size_of r l (Some c)) as [r1 oh]. cbn in Hd. subst oh.
+    destruct (IH cs r1 ltac:(lia) Hs Hok Hcls) as [dl Hdl]. destruct (download_all size_of r1 ls cs) as [r2 rest]. cbn in *. subst rest.
     eexists; reflexivity.
   Qed.
 
@@ -478,8 +469,10 @@ Section Redo.
     set (g := get_existing (readable_names s) n).
     unfold served_ok in Hok. apply andb_true_iff in Hok as [Hg1 Hg2]. rewrite forallb_forall in Hg1.
     destruct (download_all_ok size_of (Some g) s (all_layers (sv_manifest v)) (init s) (sv_contents v) HI (Rok_init size_of _ s) Hg2) as [Ha [Hb _]].
-    assert (Hext := download_all_ext (all_layers (sv_manifest v)) (sv_contents v) (init s)).
-    destruct (download_all_total (all_layers (sv_manifest v)) (sv_contents v) (init s) Hl Hs) as [dl Hdl].
+    assert (Hext := download_all_ext size_of (all_layers (sv_manifest v)) (sv_contents v) (init s)).
+    assert (Hcan : Forall (fun l => dcolon (ldg l) = true) (all_layers (sv_manifest v))).
+    { apply Forall_forall. intros l Hin. specialize (Hg1 l Hin). apply andb_true_iff in Hg1 as [Hg1 _]. exact Hg1. }
+    destruct (download_all_total (all_layers (sv_manifest v)) (sv_contents v) (init s) Hl Hs Hg2 Hcan) as [dl Hdl].
     destruct (download_all size_of (init s) (all_layers (sv_manifest v)) (sv_contents v)) as [r1 odl]. cbn [fst snd] in *. subst odl.
     destruct (Hb dl eq_refl) as [Hp Hm].
     assert (Hv : verify_all r1 dl = (r1, true)).
